@@ -131,6 +131,9 @@ def discover(anchors):
                         continue
                     seen.add((m.__name__, k))
                     found.append(dict(mod=m.__name__, name=k, kind="jitclass", params=[]))
+    # composition probes live in this file, not in the repository
+    for name in PROBES:
+        found.append(dict(mod=PROBE_MOD, name=name, kind="probe", params=[]))
     return found
 
 
@@ -826,6 +829,13 @@ def _x_quad_ker(fn, ctx, variant):
     raise Unsupported(name)
 
 
+def _x_probe_sv_qed(fn, ctx, variant):
+    k = 1 + (ctx.idx + variant) % 4
+    order = (k, 1 + (variant // 3) % 2)
+    g = ctx.tower("ns_qed", order, _NS_QED_MODES[variant % 4])
+    return (g, order, ctx.nf, ctx.nl, ctx.L, bool(variant % 2), ctx.aem)
+
+
 def _x_quadkerbase(fn, ctx, variant):
     areas, xg, j = _areas(ctx.rng, True)
     pos = xg[xg > 0]
@@ -883,6 +893,7 @@ EXPLICIT = {
     ("gamma", "gamma_qcd_as4"): _x_gamma_beta,
     ("mellin", "Path"): _x_path_class,
     ("quad_ker", "QuadKerBase"): _x_quadkerbase,
+    ("jitdiff:probe", "sv_qed_then_kernel"): _x_probe_sv_qed,
 }
 for _n in ("select_singlet_element", "select_QEDsinglet_element", "select_QEDvalence_element", "build_ome", "quad_ker_ad", "quad_ker_qcd", "quad_ker_qed", "quad_ker_ome"):
     EXPLICIT[("quad_ker", _n)] = _x_quad_ker
@@ -949,12 +960,12 @@ def _plain(v, depth=0):
         return repr(v)[:200]
 
 
-PERTURB_EPS = 4 * 2.0**-52
+PERTURB_EPS = 32 * 2.0**-52  # large enough to move sums like 1+z by several ulps, else cancellations stay invisible
 N_PERTURB = 3
 
 
 def _perturb(a, rng):
-    """Relative perturbation of every float/complex component by <= 4 ulp (ints, bools, NaNs untouched)."""
+    """Relative perturbation of every float/complex component by <= 32 ulp (ints, bools, NaNs untouched)."""
     if isinstance(a, bool) or a is None or isinstance(a, (int, str)):
         return a
     if isinstance(a, float):
@@ -1041,6 +1052,35 @@ def _quadkerbase_probe(u, is_log, logx, mode0, areas):
     return (b.is_singlet, b.is_QEDsinglet, b.is_QEDvalence, b.n, b.integrand(areas))
 
 
+# ---- composition probes: anchored functions chained the way quad_ker chains them, cheap enough for the quick tier
+sv_exponentiated = None
+qed_ns = None
+
+
+def _probe_sv_qed_then_kernel(gamma, order, nf, nl, L, alphaem_running, aem):
+    """quad_ker_qed, non-singlet branch: exponentiated variation of the QED grid, then contraction for the kernel."""
+    g = sv_exponentiated.gamma_variation_qed(gamma, order, nf, nl, L, alphaem_running)
+    return qed_ns.contract_gammas(g, aem)
+
+
+PROBES = {"sv_qed_then_kernel": _probe_sv_qed_then_kernel}
+PROBE_MOD = "vlib.oracles.jitdiff:probe"
+
+
+def _load_probe(name, jit):
+    global sv_exponentiated, qed_ns
+    import eko.kernels.non_singlet_qed as _q
+    import eko.scale_variations.exponentiated as _e
+
+    sv_exponentiated, qed_ns = _e, _q
+    f = PROBES[name]
+    if jit:
+        import numba
+
+        f = numba.njit(f)
+    return f
+
+
 def _path_probe(t, logx, axis_offset):
     """Exercise the jitclass eko.mellin.Path: constructor + the three properties."""
     from eko import mellin
@@ -1063,7 +1103,9 @@ def child_main(inp, outp):
         rec = dict(compile=None, results=[], t_first=None, t_total=None, nopython=None)
         out["functions"][fq] = rec
         try:
-            if spec["kind"] == "jitclass":
+            if spec["kind"] == "probe":
+                f = _load_probe(name, jit)
+            elif spec["kind"] == "jitclass":
                 f = {"Path": _path_probe, "QuadKerBase": _quadkerbase_probe}[name]
                 getattr(importlib.import_module(mod), name)
             else:
